@@ -88,7 +88,9 @@ void DemSampler<W>::sample_write(
         if (err_in != nullptr) {
             size_t errors_read = read_file_data_into_shot_table(
                 err_in, shots_left, (size_t)num_errors, err_in_format, 'M', err_buffer, false);
-            if (errors_read != shots_left) {
+            // A record of zero bits takes up no space in the b8 and ptb64 formats, so for a model without
+            // errors the number of shots in the file can't be counted (and there is nothing to replay).
+            if (errors_read != shots_left && num_errors > 0) {
                 throw std::invalid_argument("Expected more error data for the requested number of shots.");
             }
         }
